@@ -95,7 +95,7 @@ def bounded(tier, seed):
 		if len(sample) < 2 and n % 100 == 5:
 			sample.append({'case': c, 'result': r})
 		if not r.get('ok'):
-			failures.append({'case': c, 'expected': r.get('expected'), 'actual': r.get('actual'), 'class': 'order-dependence' if r['actual'].get('order') != list(range(len(c['genomes']))) else 'wrong'})
+			failures.append({'case': c, 'expected': r.get('expected'), 'actual': r.get('actual'), 'class': 'order-dependence' if (isinstance(r.get('actual'), dict) and r['actual'].get('order') != list(range(len(c['genomes'])))) else 'wrong'})
 			if len(failures) >= 3:
 				break
 	return {'tool': 'real classify(strict=True) under every permutation of the reference genomes against a set-based consensus spec',
